@@ -13,6 +13,7 @@ PROPS = {
     "C05": ("c05", "other"),
     "C06": ("c06", "other"),
     "C07": ("c07", "other"),
+    "C14": ("c14", "other"),
     "C19": ("c19", "other"),
     "C08": ("c08", "other"),
     "C12": ("c12_c13", "translation_validation"),
